@@ -16,6 +16,11 @@ trusted (checked per case only through the comparison itself).
 Oracles (independent of the model): the classes' own `==`, a first-principles
 deep comparison (same tree, same numeric values, same dtype kind and shape),
 idempotence of a second save/load, pickle and file paths, file names.
+
+Robustness classes R15 (distinct values that are merely close) and R16 (argument
+identity and buffer reuse) live in the helper module harness/props/c17_r1516.py
+(generators, correspondence through the driver ops paramsops / fname / file2,
+oracles `close-but-distinct-values` and `argument-identity-and-buffer-reuse`).
 """
 import copy
 import json
@@ -83,7 +88,21 @@ CLAIM = {
             'unpacking, copies, combine_simulation_results unions) by theorems params_roundtrip_after_mutation / '
             'child_keeps_own_value with the mutators in the model (driver op paramsops) + correspondence + oracles; '
             'R14 (257/258/300 parameters, results, choices, 2^16+1 elements and updates) instances of the theorems, '
-            'one case of each per run.',
+            'one case of each per run. '
+            'R15 (pairwise different values that are merely close: magnitudes 1e-9..5e-324, relative 1e-6, adjacent '
+            'doubles / float32 / float16, differences beyond the 12th decimal, integers beyond 2^53; as scalar, in lists, '
+            'sets, arrays, unpacked, in results, in file names, through setters of a long-lived object) by theorems '
+            'json_text_exact / float_text_exact (the text determines the value), setter_takes_effect_for_every_new_value, '
+            'filename_follows_setter + correspondence (values, setter histories applied by the model, file names, two '
+            'saves of one object through one file store: driver op file2) + oracle (every member is written, read, named '
+            'and saved as exactly itself; the classes\' == / != keep the members apart before and after a round trip; '
+            'one file per value). R16 (one array / list / set / dict object refilled in place between 2-4 calls, the same '
+            'object in two roles, a dict handed to from_dict / the decoder hook / replace_dict_values reused) by theorems '
+            'refill_eq_fresh, same_value_in_two_roles, later_save_keeps_earlier_files, later_save_same_name_wins (the '
+            'model has no identity: a refill in place is the assignment of the new contents) + correspondence (the model '
+            'predicts from the state before the refill and the new contents what the real long-lived object writes after '
+            'the real refill) + oracle (equals a fresh object built from a copy of the contents; nothing returned, loaded '
+            'or written earlier changes later). No tolerance is used in either class (token-exact).',
 }
 
 RESERVED = ('_is_set', '_is_numpy_array')
@@ -1675,6 +1694,14 @@ ORACLES = {
 }
 
 
+def r1516():
+    """robustness classes R15 / R16 (helper module; its oracles are replayable like the ones above)"""
+    from harness.props import c17_r1516
+    for k_, v_ in c17_r1516.ORACLES.items():
+        ORACLES.setdefault(k_, v_)
+    return c17_r1516
+
+
 def run_value_oracles(ctx, spec, nontrivial=True):
     """the value and, for arrays of ndim >= 2, the same value in every memory layout"""
     run_oracle(ctx, 'json.roundtrip', {'v': spec}, nontrivial=nontrivial)
@@ -1704,6 +1731,7 @@ def run_oracle(ctx, call, case, key=None, nontrivial=True):
 
 
 def replay(ctx, rep):
+    r1516()
     try:
         with time_limit(20.0):
             r = ORACLES[rep['call']](rep['case'])
@@ -2813,6 +2841,7 @@ def correspondence(ctx):
     b.flush()
     robustness_pass(ctx, b)
     r8_14_pass(ctx, b, ctx.tier == 'thorough')
+    r1516().corr_pass(ctx, b)
     if ctx.tier == 'thorough':
         small_scope(ctx, b)
 
@@ -2877,6 +2906,7 @@ def oracle_pass(ctx, scale=1.0):
     n = sizes(ctx)
     k = int(n['orc'] * scale)
     rng = ctx.rng.fork('oracles')
+    r1516()
     # minimised past failures (the defects repaired by the C17 fix: commits) run first
     cdir = os.path.join(core.VERIF, 'corpus', 'c17')
     if os.path.isdir(cdir):
@@ -2966,6 +2996,8 @@ def oracle_pass(ctx, scale=1.0):
     run_oracle(ctx, 'SimulationParameters.roundtrip.tuple', {'items': [['int', 1], ['int', 2]]})
     for kind in ('scalar', 'npscalar', 'array'):
         run_oracle(ctx, 'json.rejects-complex', {'kind': kind})
+    if scale == 1.0:
+        r1516().oracle_pass(ctx)        # R15 / R16
 
 
 def check(ctx):
@@ -2990,7 +3022,7 @@ def check(ctx):
                              'feature:set', 'params:child', 'params:unpacked-marks', 'params:depth=2',
                              'result:SUMTYPE', 'result:RATIOTYPE', 'result:MISCTYPE', 'result:CHOICETYPE',
                              'result:never-updated', 'result:accumulate', 'sim:current_rep-set', 'file:.json',
-                             'file:.pickle', 'file:none', 'template:missing-key']
+                             'file:.pickle', 'file:none', 'template:missing-key'] + r1516().REQUIRED
     os.environ.setdefault('VERIF_SCRATCH', ctx.scratch)
     import warnings
     with warnings.catch_warnings():
@@ -3015,3 +3047,4 @@ def search(ctx):
     with warnings.catch_warnings():
         warnings.simplefilter('ignore')
         oracle_pass(ctx, scale=4.0)
+        r1516().search_pass(ctx, 300)
